@@ -21,7 +21,7 @@ HOWS_ANY = ["new", "new_raw", "new_root", "alloc", "alloc_raw", "alloc_root", "s
 TYPES = ["Int", "Float", "String", "Tuple", "Array", "Probe"]
 ELEM_HOWS = ["aelem", "f_aelem", "lelem", "tkey", "tval", "rkey", "rval", "it_array", "it_list", "it_table", "it_tree",
              "c_tkey", "c_tval", "c_rkey", "c_rval", "a_tkey", "a_tval", "a_rkey", "a_rval"]      # copies / assignees, key and value sizes far apart
-OTHER = [("staticobj", "String"), ("copy", "Int"), ("copy", "String"), ("copy", "Float"), ("static", "Int"), ("static", "String"), ("uitem", "Int"),
+OTHER = [("staticobj", "String"), ("it_hrange", "Int"), ("copyplain", "Odd"), ("copy", "Int"), ("copy", "String"), ("copy", "Float"), ("static", "Int"), ("static", "String"), ("uitem", "Int"),
          ("it_range", "Int"), ("it_slice", "Int"), ("it_zip", "Int"), ("it_map", "Int"), ("rtinst", "Int")]
 RELEASE = ["del_raw", "dealloc", "dealloc_raw", "dealloc_root"]
 MANAGED = ["del", "del_root"]
@@ -75,9 +75,12 @@ def cases(rng, quick):
     for ops in ops_for("stack", "Half", "stack", False):           # a stack object of the type with half an Alloc instance
         out.append(["reset", "case stack Half %s" % " ".join(ops)])
     for how, ty in OTHER:
-        cls = {"copy": "heap", "static": "static", "staticobj": "static", "uitem": "heap", "it_range": "stack", "it_zip": "stack", "rtinst": "heap"}.get(how, "data")
-        reg = how in ("copy", "uitem", "rtinst")
+        cls = {"copy": "heap", "static": "static", "staticobj": "static", "it_hrange": "heap", "copyplain": "heap", "uitem": "heap", "it_range": "stack", "it_zip": "stack", "rtinst": "heap"}.get(how, "data")
+        reg = how in ("copy", "uitem", "rtinst", "it_hrange", "copyplain")
         t2 = "Tuple" if how == "it_zip" else ty
+        if how == "it_hrange":                 # (the cursor belongs to the Range: obtained and looked at, not disposed of)
+            out.append(["reset", "case %s %s swapstack" % (how, ty)]); out.append(["reset", "case %s %s swapheap" % (how, ty)])
+            continue
         for ops in ops_for(how, t2, cls, reg):
             out.append(["reset", "case %s %s %s" % (how, ty, " ".join(ops))])
     return out
